@@ -602,6 +602,19 @@ def twin_case(rng):
         if max(float(F(hv) * SI['Angle'][ua]), float(F(hv) * SI['Angle'][ub])) < math.radians(89):
             pool += [g('n4', [v, u1], [hv, ua]), g('n5', [v, u1], [hv, ub])]
             decls += [['gear', 4, 5, 0.9]]
+    if rng.random() < 0.35:
+        # two worm matings whose angles are the same *numbers* in different units (0.25 rad vs 0.25 deg): different
+        # efficiencies, different self-locking thresholds
+        n = len(pool)
+        hv = rng.choice([0.1, 0.2, 0.25])       # (0.25 rad = 14.3 deg is below every tabulated helix limit)
+        rowpa = rng.choice([14.5, 20.0, 25.0, 30.0])
+        for k_, hu in enumerate(rng.sample(['rad', 'deg'], 2)):
+            pool += [{'type': 'wormgear', 'name': f'n{n + 2 * k_}', 'pa': [rowpa, 'deg'], 'pa_deg': rowpa, 'helix': [hv, hu],
+                      'helix_deg': math.degrees(float(F(hv) * SI['Angle'][hu])), 'starts': 2, 'd': None},
+                     {'type': 'wormwheel', 'name': f'n{n + 2 * k_ + 1}', 'z': 30, 'module': None, 'pa': [rowpa, 'deg'], 'pa_deg': rowpa,
+                      'helix': [hv, hu], 'helix_deg': math.degrees(float(F(hv) * SI['Angle'][hu])), 'fw': None}]
+        fw = rng.choice([0.002, 0.01, 0.05])
+        decls += [['worm', n, n + 1, fw], ['worm', n + 2, n + 3, fw]]
     if rng.random() < 0.4:
         # a helical gear whose helix angle is null is still a helical gear: it does not mate with a spur gear
         n = len(pool)
